@@ -123,8 +123,8 @@ def run(ctx):
         "mudslide/integration.py", ["clenshaw_curtis", "midpoint", "trapezoid", "simpson", "quadrature"])
     ctx.proofs()
     rng = ctx.rng
-    nmax = ctx.budget(64, 1024)
-    ns = sorted(set(list(range(2, 20)) + [int(v) for v in rng.integers(20, nmax + 1, size=ctx.budget(10, 60))] + [nmax]))
+    nmax = ctx.budget(64, 384)
+    ns = sorted(set(list(range(2, 20)) + [int(v) for v in rng.integers(20, nmax + 1, size=ctx.budget(10, 30))] + [nmax]))
     intervals = [(-1.0, 1.0), (0.0, 1.0)]
     for _ in range(ctx.budget(4, 12)):
         a = float(rng.normal() * 10 ** rng.uniform(-1, 3))
